@@ -15,7 +15,9 @@ inductive EffSpec (c : Ctx) (e : Engine) : Nat → Effect → Prop
   | none (op : Nat) : EffSpec c e op .none
   | insert (op : Nat) (os : List Obj) :
       (∀ o ∈ os, o.owner = e.identity.user ∧ o.initialDate = c.now ∧
-                 (o.state = none ∨ o.state = some St.preActive)) →
+                 (o.state = none ∨ o.state = some St.preActive) ∧
+                 (o.otype ≠ OT.opaqueData → o.mask.isSome = true ∧ o.state.isSome = true) ∧
+                 (op ≠ Op.register → o.otype ∈ storedTypes)) →
       EffSpec c e op (.insert os)
   | activate (o : Obj) : o ∈ e.store.objs → Allowed c e o Op.activate → o.state = some St.preActive →
       EffSpec c e Op.activate (.update { o with state := some St.active })
@@ -28,22 +30,57 @@ inductive EffSpec (c : Ctx) (e : Engine) : Nat → Effect → Prop
   | destroy (o : Obj) : o ∈ e.store.objs → Allowed c e o Op.destroy → o.state ≠ some St.active →
       EffSpec c e Op.destroy (.delete o.uid)
 
+/-- what a freshly constructed object looks like: pre-active (or stateless), with a usage mask
+and a state unless it is an opaque object -/
+def Fresh (o : Obj) : Prop :=
+  (o.state = none ∨ o.state = some St.preActive) ∧
+  (o.otype ≠ OT.opaqueData → o.mask.isSome = true ∧ o.state.isSome = true)
+
+theorem newObj_fresh (ot : Nat) (v : String) : Fresh (newObj ot v) := by
+  unfold newObj Fresh; simp only
+  by_cases h : (ot == OT.opaqueData) = true
+  · simp [h]; simpa using h
+  · simp [h]
+
+/-- `Fresh` only looks at the type, state and mask: records built from `newObj … with …` are fresh too -/
+theorem fresh_of_fields {o : Obj} {ot : Nat} (ht : o.otype = ot)
+    (hs : o.state = if ot == OT.opaqueData then none else some St.preActive)
+    (hm : o.mask = if ot == OT.opaqueData then none else some 0) : Fresh o := by
+  have := newObj_fresh ot ""
+  unfold Fresh at *
+  unfold newObj at this
+  simp only at this
+  rw [hs, hm, ht]; exact this
+
 theorem newObj_state (ot : Nat) (v : String) :
-    (newObj ot v).state = none ∨ (newObj ot v).state = some St.preActive := by
-  unfold newObj; simp only; split <;> simp
+    (newObj ot v).state = none ∨ (newObj ot v).state = some St.preActive := (newObj_fresh ot v).1
 
 /-- an object built by a creating handler: `setAttrs` on a fresh object, then `finalize` -/
-theorem inserted_ok {c : Ctx} {e : Engine} {o0 o : Obj} {d : AttrDict}
-    (h0 : o0.state = none ∨ o0.state = some St.preActive) (h : setAttrs c o0 d = .ok o) :
+theorem inserted_ok {c : Ctx} {e : Engine} {o0 o : Obj} {d : AttrDict} {op : Nat}
+    (h0 : Fresh o0) (ht : op ≠ Op.register → o0.otype ∈ storedTypes) (h : setAttrs c o0 d = .ok o) :
     (finalize c e o).owner = e.identity.user ∧ (finalize c e o).initialDate = c.now ∧
-    ((finalize c e o).state = none ∨ (finalize c e o).state = some St.preActive) := by
-  refine ⟨rfl, rfl, ?_⟩
-  show o.state = none ∨ o.state = some St.preActive
-  rw [(setAttrs_core h).state]; exact h0
+    ((finalize c e o).state = none ∨ (finalize c e o).state = some St.preActive) ∧
+    ((finalize c e o).otype ≠ OT.opaqueData →
+      (finalize c e o).mask.isSome = true ∧ (finalize c e o).state.isSome = true) ∧
+    (op ≠ Op.register → (finalize c e o).otype ∈ storedTypes) := by
+  have hc := setAttrs_core h
+  refine ⟨rfl, rfl, ?_, ?_, ?_⟩
+  · show o.state = none ∨ o.state = some St.preActive
+    rw [hc.state]; exact h0.1
+  · show o.otype ≠ OT.opaqueData → o.mask.isSome = true ∧ o.state.isSome = true
+    intro hne
+    rw [hc.otype] at hne
+    have := h0.2 hne
+    exact ⟨setAttrs_maskSome h this.1, by rw [hc.state]; exact this.2⟩
+  · show op ≠ Op.register → o.otype ∈ storedTypes
+    intro hop; rw [hc.otype]; exact ht hop
 
-theorem derivedObj_state (ot : Nat) (a : Option Nat) (b : Nat) (v : String) :
-    (derivedObj ot a b v).state = none ∨ (derivedObj ot a b v).state = some St.preActive := by
-  unfold derivedObj; split <;> dsimp only <;> exact newObj_state _ _
+theorem derivedObj_fresh (ot : Nat) (a : Option Nat) (b : Nat) (v : String) : Fresh (derivedObj ot a b v) := by
+  unfold derivedObj; split <;> exact fresh_of_fields rfl rfl rfl
+
+theorem derivedObj_type (ot : Nat) (a : Option Nat) (b : Nat) (v : String) :
+    (derivedObj ot a b v).otype ∈ storedTypes := by
+  unfold derivedObj; split <;> simp [newObj, storedTypes]
 
 /-- closes `EffSpec c e (.insert [finalize c e o])` from the anonymous `setAttrs … = .ok o` fact -/
 macro "insert_one" : tactic =>
@@ -52,11 +89,14 @@ macro "insert_one" : tactic =>
     intro o' ho'
     simp only [List.mem_singleton] at ho'
     subst ho'
-    refine inserted_ok ?_ (by assumption)
-    first
-      | exact newObj_state _ _
-      | (dsimp only; exact newObj_state _ _)
-      | exact derivedObj_state _ _ _ _))
+    refine inserted_ok ?_ ?_ (by assumption)
+    · first
+      | exact derivedObj_fresh _ _ _ _
+      | exact fresh_of_fields rfl rfl rfl
+    · first
+      | (intro _; exact derivedObj_type _ _ _ _)
+      | (intro _; simp [newObj, storedTypes]; done)
+      | (intro hne; exact absurd rfl hne)))
 
 theorem opCreate_spec {c e ot t cr eff d} (h : opCreate c e ot t cr = .ok (eff, d)) : EffSpec c e Op.create eff := by
   unfold opCreate at h
@@ -93,8 +133,8 @@ theorem opCreateKeyPair_spec {c e cm pr pu cr eff d} (h : opCreateKeyPair c e cm
   intro o' ho'
   simp only [List.mem_cons, List.mem_nil_iff, or_false] at ho'
   rcases ho' with rfl | rfl
-  · exact inserted_ok (by dsimp only; exact newObj_state _ _) hpo
-  · exact inserted_ok (by dsimp only; exact newObj_state _ _) hso
+  · exact inserted_ok (fresh_of_fields rfl rfl rfl) (fun _ => by simp [newObj, storedTypes]) hpo
+  · exact inserted_ok (fresh_of_fields rfl rfl rfl) (fun _ => by simp [newObj, storedTypes]) hso
 
 /-- closes goals of read-only handlers: every successful branch returns `.none` -/
 macro "readonly_handler" h:ident : tactic =>
